@@ -2855,6 +2855,13 @@ impl<T: Storage> Raft<T> {
         let prev_timeout = self.randomized_election_timeout;
         let timeout =
             rand::thread_rng().gen_range(self.min_election_timeout..self.max_election_timeout);
+        #[cfg(tikv_raft_rs_verif)]
+        let timeout = crate::verif::election_timeout(
+            self.id,
+            self.min_election_timeout,
+            self.max_election_timeout,
+        )
+        .unwrap_or(timeout);
         debug!(
             self.logger,
             "reset election timeout {prev_timeout} -> {timeout} at {election_elapsed}",
